@@ -84,7 +84,9 @@ func c10Check(in c10Input, doc any) *Failure {
 		return &Failure{Sig: "C10/panic/" + shape, Expected: "no panic", Observed: A.String() + " / " + B.String()}
 	}
 	if B.Class != "ok" {
-		if A.Class != B.Class {
+		// (items stream through the filter: a condition's non-suppressible error on an earlier item
+		// precedes the prefix's failure on a later one)
+		if A.Class != B.Class && !(B.Class == "soft" && A.Class == "hard") {
 			return &Failure{Sig: "C10/prefix-error-not-propagated/" + shape, Expected: B.String(), Observed: A.String()}
 		}
 		return nil
